@@ -152,6 +152,18 @@ func (s *Store) bitsOf(t *Term) []bitSrc {
 	default:
 		self()
 	}
+	// bits that the known-bits analysis fixes are constants whatever their
+	// structural source is (keeps the description canonical: a rebuilt term
+	// and its original describe every bit the same way)
+	if k0, k1 := t.known(); k0|k1 != 0 {
+		for i := range bits {
+			if k0>>uint(i)&1 == 1 {
+				bits[i] = constBit(0)
+			} else if k1>>uint(i)&1 == 1 {
+				bits[i] = constBit(1)
+			}
+		}
+	}
 	t.bits = bits
 	return bits
 }
@@ -235,6 +247,15 @@ func (s *Store) normBits(t *Term) *Term {
 		r.norm = r
 		if r.bits == nil {
 			r.bits = bits
+			if checkBits {
+				r.bits = nil
+				nat := s.bitsOf(r)
+				for i := range nat {
+					if nat[i] != bits[i] {
+						panic(engineError{fmt.Sprintf("normBits: bits of the rebuilt term differ at %d: %v vs %v; t=%s r=%s", i, bits[i], nat[i], t.String(), r.String())})
+					}
+				}
+			}
 		}
 	}
 	if checkBits {
